@@ -399,9 +399,9 @@ func c19GroupBy(b *core.B, kind string, n int, xs interface{}) {
 
 func init() {
 	core.Register(&core.Prop{
-		ID:    "C19",
-		Level: "exploration",
-		Rule: "range(a,b), between(a,b), until(n) called directly for all a, b, n in [-8, 8] (thorough: [-24, 24]) and {MinInt, MinInt+1, MaxInt-1, MaxInt} (all pairs, 441 + extremes) with expectations from overflow-checked arithmetic (sequences longer than 64 are checked on their first 64 elements and for not ending early) and drained with a Next() budget of expected+2, so termination is decided by count; the same helpers through a template for loop for all small arguments; iterators.GroupBy and plush.GroupByHelper for every length 0-40 x n in [-2, 12] x {[]string, []int, []struct, []*struct, *[]int, [5]int, *[5]int} plus random larger cases, judged by the partition laws (at most n groups, consecutive, concatenation = input, all but the last of equal size, errors for n <= 0 and non-sequences) and against each other; len on strings (multi-byte, invalid UTF-8), slices, arrays, maps, pointers to them, directly and through a template. Enumerated cases are distinct by construction.",
+		ID:         "C19",
+		Level:      "exploration",
+		Rule:       "range(a,b), between(a,b), until(n) called directly for all a, b, n in [-8, 8] (thorough: [-24, 24]) and {MinInt, MinInt+1, MaxInt-1, MaxInt} (all pairs, 441 + extremes) with expectations from overflow-checked arithmetic (sequences longer than 64 are checked on their first 64 elements and for not ending early) and drained with a Next() budget of expected+2, so termination is decided by count; the same helpers through a template for loop for all small arguments; iterators.GroupBy and plush.GroupByHelper for every length 0-40 x n in [-2, 12] x {[]string, []int, []struct, []*struct, *[]int, [5]int, *[5]int} plus random larger cases, judged by the partition laws (at most n groups, consecutive, concatenation = input, all but the last of equal size, errors for n <= 0 and non-sequences) and against each other; len on strings (multi-byte, invalid UTF-8), slices, arrays, maps, pointers to them, directly and through a template. Enumerated cases are distinct by construction.",
 		Assume:     []string{"element order of a sequence is what Next() returns until the first nil"},
 		Batches:    batchesQT(8, 16),
 		Run:        c19Run,
